@@ -131,3 +131,47 @@ def variant_name(F, v):
 def is_input_atom(a):
     """atoms that are inputs (not results of events / calls)"""
     return "#" not in repr(a)
+
+
+def var(name, idx, n):
+    """0/1 poly: symbolic enum `name` with n variants is variant idx"""
+    if idx == 0:
+        p = ONE
+        for i in range(1, n):
+            p = p - Poly.atom(("var", name, i, n))
+        return p
+    return Poly.atom(("var", name, idx, n))
+
+
+def enum_is(F, adt, sym_name, variant_name_):
+    n = len(F.adts[adt]["variants"])
+    return var(sym_name, enum_variant_index(F, adt, variant_name_), n)
+
+
+def run_pure(R, ex, rec, rule, key, args=None, subst=None, allow_panic=False):
+    """interpret a loop-free pure function: exactly one return outcome, no panics.
+    -> (value, state, result) or None (violation recorded)"""
+    res = R.run_entry(ex, rec, args=args, subst=subst)
+    rets = res.returns()
+    pan = res.panics()
+    if pan and not allow_panic:
+        for o in pan:
+            R.ob(rule + "-no-panic", "%s|panic|%s|%s" % (key, o.info.get("what") or o.info.get("kind"), o.info.get("cond")), False,
+                 "%s can panic: %s" % (rec["pretty"], {k: v for k, v in o.info.items() if k != "stack"}),
+                 "%s:%s" % (o.info["span"]["file"], o.info["span"]["line"]) if o.info.get("span") else None)
+    if len(rets) != 1:
+        if len(rets) > 1:
+            st, v = ex.merge_states([o.state for o in rets], [o.value for o in rets])
+            return v, st, res
+        R.undecided(rule, key + "|returns", "%s has %d return paths" % (rec["pretty"], len(rets)))
+        return None
+    return rets[0].value, rets[0].state, res
+
+
+def byte_poly(v):
+    from poly import unfold_bits
+    return unfold_bits(v.poly())
+
+
+def bit(name, width, i):
+    return Poly.atom(("bit", ("i", name, width, False), i))
